@@ -1,6 +1,8 @@
 SPECIFICATION TSpec
 CONSTANTS
   MaxLen = 0
+  MinFns = 1
+  MaxFns = 1
   MaxDepth = 0
   TokenKinds = {}
   ElseFlagCleared = TRUE
